@@ -11,6 +11,12 @@ def check_c15(ctx, sched, now, task_pl, plist):
         if p.placement_type.name != "PLACE_TASK" or not p.is_placed():
             continue
         groups.setdefault(id(p.execution_strategy), []).append(p)
+    # models this very answer evicts: the simulator applies EVICT/LOAD decisions before the task placements of
+    # the same instant, so a batch of such a model would start on a worker where it is no longer loaded
+    evicted = {}
+    for p in plist:
+        if p.placement_type.name == "EVICT_WORK_PROFILE":
+            evicted[(p.worker_id, id(p.work_profile))] = _us(p.placement_time)
     placed_before = ctx.__dict__.setdefault("clockwork_placed", {})
     used_now = {}  # id(worker) -> demand already claimed by batches of this invocation
     for sid, ps in groups.items():
@@ -49,6 +55,10 @@ def check_c15(ctx, sched, now, task_pl, plist):
             ctx.violate("C15", "model_not_loaded",
                         f"Clockwork at t={now}: batch of model {prof.name} placed on {worker.name} where the model "
                         f"is not loaded (is_available={worker.is_available(prof)})", {})
+        if (wid, id(prof)) in evicted and evicted[(wid, id(prof))] <= now:
+            ctx.violate("C15", "model_evicted_by_same_answer",
+                        f"Clockwork at t={now}: batch of model {prof.name} placed on {worker.name} although the same "
+                        f"answer evicts that model from it", {})
         led = ctx.ledgers.get(id(worker))
         if led is not None:
             used = dict(led.used_by_type())
